@@ -222,59 +222,131 @@ def t17_ord(run, fx):
 def t17_fast(run, fx):
     rule = "T17-FAST"
     run.rule(rule, "modified_combining_class answers NotReordered without consulting the combining class table only below U+0300, the first "
-                   "code point with a non-zero canonical combining class (UnicodeData: U+0300 COMBINING GRAVE ACCENT, ccc 230): the function's "
-                   "only branch is c <= U+02FF (or c < U+0300); every other code point goes through get_canonical_combining_class")
+                   "code point with a non-zero canonical combining class (UnicodeData: U+0300 COMBINING GRAVE ACCENT, ccc 230): walking the function "
+                   "with c in U+0300..U+10FFFF (comparisons of c with constants decided on sub-ranges), every path to the return passes "
+                   "get_canonical_combining_class")
     b = fx.body("unicode::mcc::modified_combining_class")
     if b is None:
         return run.anchor_missing(rule, "unicode::mcc::modified_combining_class")
     import guards
     prov = sym.Prov(b)
-    conds = guards.branch_conditions(b, prov)
-    calls = guards.bool_call_conditions(b, prov)
-    ok = len(conds) == 1 and not calls
-    why = ""
-    if ok:
-        tb, fb_, op, x, y, sw = conds[0]
-        ys = sym.strip(y)
-        k = ys[1] if ys[0] == "c" else None
+    if not any((t["callee"].get("path") or "").endswith("get_canonical_combining_class") for _, t in b.calls()):
+        return run.fail(rule, "mcc-fast-path", "modified_combining_class never consults get_canonical_combining_class", "%s:%s" % (b.file, b.line))
+
+    def kval(t):
+        t = sym.strip(t)
+        while t[0] == "cast":
+            t = sym.strip(t[4])
+        if t[0] != "c":
+            return None
+        k = t[1]
         if isinstance(k, str) and len(k) == 1:
-            k = ord(k)
-        if k is None and ys[0] == "c" and len(ys) > 3:
-            import re
-            m = re.search(r"u\{([0-9a-fA-F]+)\}", str(ys[3]))
-            k = int(m.group(1), 16) if m else None
-        if k is None:
-            # constant on the left: k op c  ==  c flip(op) k
-            xs = sym.strip(x)
-            k = xs[1] if xs[0] == "c" else None
-            if isinstance(k, str) and len(k) == 1:
-                k = ord(k)
-            if k is None and xs[0] == "c" and len(xs) > 3:
-                import re
-                m = re.search(r"u\{([0-9a-fA-F]+)\}", str(xs[3]))
-                k = int(m.group(1), 16) if m else None
-            op = guards.CMP_FLIP.get(op, op)
-        # which side of the comparison consults the table? It must be the side every c >= U+0300 takes, whichever way the test is written
-        tbl = [bi for bi, t in b.calls() if (t["callee"].get("path") or "").endswith("get_canonical_combining_class")]
-        on_true = bool(tbl) and tb is not None and all(b.dominates(tb, bi) for bi in tbl)
-        on_false = bool(tbl) and fb_ is not None and all(b.dominates(fb_, bi) for bi in tbl)
-        if not isinstance(k, int):
-            ok = False
-        elif on_false:
-            ok = (op == "Le" and k <= 0x2FF) or (op == "Lt" and k <= 0x300)
-        elif on_true:
-            ok = (op == "Gt" and k <= 0x2FF) or (op == "Ge" and k <= 0x300)
-        else:
-            ok = False
-        why = "%s %s%s" % (op, hex(k) if isinstance(k, int) else k, "" if (on_true or on_false) else ", table lookup on neither side")
+            return ord(k)
+        if isinstance(k, int) and not isinstance(k, bool):
+            return k
+        import re
+        m = re.search(r"u\{([0-9a-fA-F]+)\}", str(t[3]) if len(t) > 3 else "")
+        return int(m.group(1), 16) if m else None
+
+    def is_c(t):
+        t = sym.strip(t)
+        while t[0] == "cast" or (t[0] == "call" and (t[1] or "").endswith("From<char> for u32>::from") and t[2]):
+            t = sym.strip(t[4] if t[0] == "cast" else t[2][0])
+        return t[0] == "arg" and t[1] == 1
+
+    bad = []
+    budget = [4000]
+
+    def walk(bb, lo, hi, seen, depth):
+        if budget[0] <= 0 or depth > 300:
+            bad.append("walk too deep")
+            return
+        budget[0] -= 1
+        t = b.term(bb)
+        k = t["k"]
+        if k == "return":
+            if not seen:
+                bad.append("U+%04X..U+%04X" % (lo, hi))
+            return
+        if k == "call":
+            if (t["callee"].get("path") or "").endswith("get_canonical_combining_class"):
+                seen = True
+            if t.get("target") is not None:
+                walk(t["target"], lo, hi, seen, depth + 1)
+            return
+        if k in ("goto", "assert", "drop"):
+            if t.get("target") is not None:
+                walk(t["target"], lo, hi, seen, depth + 1)
+            return
+        if k == "switch":
+            d = sym.strip(prov.op(t["discr"]))
+            neg = False
+            while d[0] == "un" and d[1] == "Not":
+                neg = not neg
+                d = sym.strip(d[2])
+            false_t = [tg for v, tg in t["arms"] if v == 0]
+            if t.get("dty") == "bool" and d[0] == "bin" and d[1] in guards.CMP_FLIP and false_t:
+                op, x, y = d[1], d[2], d[3]
+                if is_c(y) and kval(x) is not None:
+                    op, x, y = guards.CMP_FLIP[op], y, x
+                kk = kval(y)
+                if is_c(x) and kk is not None:
+                    tt, ff = t["otherwise"], false_t[0]
+                    if neg:
+                        tt, ff = ff, tt
+                    # sub-ranges of [lo, hi] where `c op kk` is true / false
+                    if op in ("Lt", "Le"):
+                        cut = kk - 1 if op == "Lt" else kk
+                        parts = [(tt, lo, min(hi, cut)), (ff, max(lo, cut + 1), hi)]
+                    elif op in ("Gt", "Ge"):
+                        cut = kk + 1 if op == "Gt" else kk
+                        parts = [(ff, lo, min(hi, cut - 1)), (tt, max(lo, cut), hi)]
+                    elif op == "Eq":
+                        parts = [(tt, max(lo, kk), min(hi, kk)), (ff, lo, hi)]
+                    else:
+                        parts = [(ff, max(lo, kk), min(hi, kk)), (tt, lo, hi)]
+                    for tg, a, c in parts:
+                        if a <= c:
+                            walk(tg, a, c, seen, depth + 1)
+                    return
+            if t.get("dty") == "bool" and d[0] == "call" and (d[1] or "").endswith(("RangeInclusive::<Idx>::contains", "Range::<Idx>::contains")) and len(d[2]) == 2 and false_t:
+                r, item = sym.strip(d[2][0]), sym.strip(d[2][1])
+                while r[0] in ("ref", "deref"):
+                    r = sym.strip(r[1])
+                while item[0] in ("ref", "deref"):
+                    item = sym.strip(item[1])
+                bounds = None
+                if r[0] == "call" and (r[1] or "").endswith("RangeInclusive::<Idx>::new") and len(r[2]) == 2:
+                    bounds = (kval(r[2][0]), kval(r[2][1]))
+                elif r[0] == "agg" and str(r[1]).endswith("ops::Range") and len(r[3]) == 2:
+                    e = kval(r[3][1])
+                    bounds = (kval(r[3][0]), e - 1 if e is not None else None)
+                if is_c(item) and bounds and None not in bounds:
+                    tt, ff = t["otherwise"], false_t[0]
+                    if neg:
+                        tt, ff = ff, tt
+                    a0, b0 = bounds
+                    for tg, a, c in ((tt, max(lo, a0), min(hi, b0)), (ff, lo, min(hi, a0 - 1)), (ff, max(lo, b0 + 1), hi)):
+                        if a <= c:
+                            walk(tg, a, c, seen, depth + 1)
+                    return
+            if is_c(d) and t.get("dty") != "bool":
+                for v, tg in t["arms"]:
+                    if lo <= v <= hi:
+                        walk(tg, v, v, seen, depth + 1)
+                walk(t["otherwise"], lo, hi, seen, depth + 1)
+                return
+            for tg in dict.fromkeys([x for _, x in t["arms"]] + [t["otherwise"]]):
+                if b.term(tg)["k"] != "unreachable":
+                    walk(tg, lo, hi, seen, depth + 1)
+            return
+    walk(0, 0x0300, 0x10FFFF, False, 0)
+    if bad:
+        run.fail(rule, "mcc-fast-path", "modified_combining_class: the NotReordered fast path is not limited to code points below U+0300 (the combining class table "
+                 "is not consulted for %s): combining marks inside the widened range are no longer sorted and split the runs they sit in" % ", ".join(sorted(set(bad))[:4]),
+                 "%s:%s" % (b.file, b.line))
     else:
-        why = "%d comparison(s) and %d predicate call(s) decide the fast path" % (len(conds), len(calls))
-    uses_table = any((t["callee"].get("path") or "").endswith("get_canonical_combining_class") for _, t in b.calls())
-    if ok and uses_table:
-        run.ok(rule, "fast path: c %s; everything else through the combining class table" % why)
-    else:
-        run.fail(rule, "mcc-fast-path", "modified_combining_class: the NotReordered fast path is not limited to code points below U+0300 (%s): combining "
-                 "marks inside the widened range are no longer sorted and split the runs they sit in" % why, "%s:%s" % (b.file, b.line))
+        run.ok(rule, "every c in U+0300..U+10FFFF goes through the combining class table")
 
 
 def t17_ya(run, fx):
